@@ -61,6 +61,7 @@ type Witness struct {
 	Expected     Expected `json:"expected"`
 	FixturesDir  string   `json:"fixtures_dir"`
 	SkipValidate string   `json:"skip_validate,omitempty"`
+	ExactInts    []string `json:"exact_ints,omitempty"`
 	Actual       any      `json:"actual,omitempty"`
 	Detail       string   `json:"detail,omitempty"`
 }
@@ -112,7 +113,7 @@ func one(c *fw.Ctx, fx *Fixtures, i int) {
 		}()
 		exp = cfg.ExpectedJSON()
 	}()
-	w := &Witness{Index: i, Seed: c.Seed, Caddyfile: text, Expected: exp, FixturesDir: fx.Dir, SkipValidate: cfg.SkipValidate}
+	w := &Witness{Index: i, Seed: c.Seed, Caddyfile: text, Expected: exp, FixturesDir: fx.Dir, SkipValidate: cfg.SkipValidate, ExactInts: cfg.ExactInts}
 
 	uses := append([]string(nil), cfg.Uses...)
 	sort.Strings(uses)
@@ -281,6 +282,20 @@ func judge(c *fw.Ctx, w *Witness) {
 	for _, wn := range warns {
 		c.SetAdd("adapter_warning_kinds", normErr(wn.Message, w.FixturesDir))
 		c.Obs("adapter_warning: "+normErr(wn.Message, w.FixturesDir), 1)
+	}
+	if len(w.ExactInts) > 0 {
+		// integers far outside any sensible range: refusing the Caddyfile is fine; adapting it to other digits is not
+		if err1 != nil {
+			c.Obs("extreme_integer_refused", 1)
+			return
+		}
+		for _, v := range w.ExactInts {
+			if !bytes.Contains(out1, []byte(":"+v)) {
+				c.Violation("C15 adapt != expected: integer option not taken over digit by digit", fmt.Sprintf("the Caddyfile gives %s for an integer option; the adapter accepted it, but these digits are not in the adapted JSON", v), w.with(string(out1), nil))
+			}
+		}
+		c.Obs("extreme_integer_adapted", 1)
+		return
 	}
 	if err1 != nil {
 		c.Violation("C15 adapter rejects documented syntax: "+normErr(err1.Error(), w.FixturesDir), err1.Error(), w.with(err1.Error(), nil))
